@@ -175,8 +175,7 @@ extern "C" {
                 *ref.runtime, std::string_view(contents, length), { "dllexports"sv, {} });
 
             if (!ppedStr.has_value())
-            {
-                ref.logger->callback(ref.logger->user_data, NULL, -1, ppedStr->data(), ppedStr->length());
+            { // There is no text to hand out (the optional is empty); the diagnostics went to the callback already
                 return preprocessing_failed;
             }
             auto success = ref.runtime->parser_config().parse(ref.runtime->confighost(), *ppedStr, { "dllexports"sv, {} });
@@ -212,8 +211,7 @@ extern "C" {
                 *ref.runtime, std::string_view(code, length), { "dllexports"sv, {} });
 
             if (!ppedStr.has_value())
-            {
-                ref.logger->callback(ref.logger->user_data, call_data, -1, ppedStr->data(), ppedStr->length());
+            { // There is no text to hand out (the optional is empty); the diagnostics went to the callback already
                 return preprocessing_failed;
             }
             switch (type)
